@@ -53,6 +53,17 @@ pub fn filename_navigate(
 {
 	if is_std_path(relative)
 	{
+		// The library prefix names built-in files only:
+		// it is not a directory to navigate out of
+		if relative
+			.replace("\\", "/")
+			.split("/")
+			.any(|c| c == "..")
+		{
+			report.error_span("cannot navigate out of project directory", span);
+			return Err(());
+		}
+
 		return Ok(relative.to_string());
 	}
 
@@ -66,8 +77,15 @@ pub fn filename_navigate(
 
 	// Collect current path components, but remove the last one (the filename)
 	let mut path_components = Vec::new();
-	for split in current.split("/")
+	for (index, split) in current.split("/").enumerate()
 	{
+		// An empty component (a doubled separator) is not a
+		// directory level; a leading one marks an absolute path
+		if index > 0 && split.len() == 0
+		{
+			continue;
+		}
+
 		path_components.push(split);
 	}
 
